@@ -395,14 +395,16 @@ Section Chain.
       cbn [seq first_cut]. destruct m; reflexivity.
   Qed.
 
-  Theorem chain_partial_offers e p :
-    e_ignore_case e = false -> e_wordbreaks e = EmptyString ->
+  (** the reply before bash's own word-break stripping *)
+  Theorem chain_partial_offers_gen e p :
+    e_ignore_case e = false ->
     (var = Repaired \/ plain p = true) -> printable_str p = true ->
     (exists v, is_value v /\ String.prefix p v = true /\ p <> v) ->
     run_from var 0 tabs e [] (pre ++ p)
-    = Ok (mkresult 0 (map (append pre) (filter (String.prefix p) values)) []).
+    = (do reply <- strip_reply e (pre ++ p) (map (append pre) (filter (String.prefix p) values));
+       Ok (mkresult 0 reply [])).
   Proof.
-    intros Hi Hw Hpp Hpr Hex. unfold run_from. cbn [walk obind].
+    intros Hi Hpp Hpr Hex. unfold run_from. cbn [walk obind].
     rewrite chain_main_maxlevel. cbn [top_levels].
     replace (if quirky var then @nil string else []) with (@nil string) by (destruct (quirky var); reflexivity).
     rewrite chain_main_clit0, chain_csub0, chain_main_ccmd. cbn [map List.app obind].
@@ -414,6 +416,17 @@ Section Chain.
       assert (In (pre ++ v)%string (map (append pre) (filter (String.prefix p) values))) as Hin.
       { apply in_map. apply filter_In. split; [now apply value_in_values|exact Hpv]. }
       rewrite E in Hin. contradiction.
-    - rewrite (strip_no_wordbreaks e _ _ Hw). reflexivity.
+    - destruct (strip_reply e (pre ++ p) (x :: r)); reflexivity.
+  Qed.
+
+  Theorem chain_partial_offers e p :
+    e_ignore_case e = false -> e_wordbreaks e = EmptyString ->
+    (var = Repaired \/ plain p = true) -> printable_str p = true ->
+    (exists v, is_value v /\ String.prefix p v = true /\ p <> v) ->
+    run_from var 0 tabs e [] (pre ++ p)
+    = Ok (mkresult 0 (map (append pre) (filter (String.prefix p) values)) []).
+  Proof.
+    intros Hi Hw Hpp Hpr Hex. rewrite (chain_partial_offers_gen e p Hi Hpp Hpr Hex).
+    now rewrite (strip_no_wordbreaks e _ _ Hw).
   Qed.
 End Chain.
